@@ -84,6 +84,13 @@ pub fn eval(g: &Grammar, c: &CDoc) -> Res {
                             res.viol = viol("deprecation-count", format!("{} deprecated uses in the document, {} deprecation notices", ndep, vars.len()));
                             return res;
                         }
+                        // the class of the notice: a deprecated enum item is not a deprecated sub-block
+                        let n_enum = acc.deprecated.iter().filter(|d| d.1.starts_with("enum:")).count();
+                        let got_enum = vars.iter().filter(|v| v.ends_with("EnumRefDeprecated")).count();
+                        if got_enum != n_enum {
+                            res.viol = viol("deprecation-class", format!("{n_enum} deprecated enum items and {} deprecated elements in the document, the notices are [{}]", ndep - n_enum, vars.join(",")));
+                            return res;
+                        }
                     }
                     // every value readable from the model
                     let dbg = format!("{f:?}");
